@@ -735,10 +735,11 @@ func (c *ctx) call(fc *fileCtx, call *ast.CallExpr, res *Result) {
 			rewrite(f.Name())
 			res.MutexOps++
 		case "TryLock":
-			c.unsupported(call, "sync.Mutex.TryLock")
+			rewrite("TryLock")
+			res.MutexOps++
 		}
 	case namedFrom(rt, "sync", "RWMutex"):
-		m := map[string]string{"Lock": "RWLock", "Unlock": "RWUnlock", "RLock": "RLock", "RUnlock": "RUnlock"}
+		m := map[string]string{"Lock": "RWLock", "Unlock": "RWUnlock", "RLock": "RLock", "RUnlock": "RUnlock", "TryLock": "RWTryLock", "TryRLock": "TryRLock"}
 		if r, ok := m[f.Name()]; ok {
 			rewrite(r)
 			res.MutexOps++
@@ -768,6 +769,12 @@ func (c *ctx) call(fc *fileCtx, call *ast.CallExpr, res *Result) {
 			c.unsupported(call, "sync.WaitGroup."+f.Name())
 		}
 	case namedFrom(rt, "sync", "Cond"):
-		c.unsupported(call, "sync."+rt.String())
+		m := map[string]string{"Wait": "CondWait", "Signal": "CondSignal", "Broadcast": "CondBroadcast"}
+		if r, ok := m[f.Name()]; ok {
+			rewrite(r)
+			res.MutexOps++
+		} else {
+			c.unsupported(call, "sync.Cond."+f.Name())
+		}
 	}
 }
